@@ -185,6 +185,10 @@ def write_evidence(pid, tier, seed, reg, results, wall, violations, known_seen, 
     with open(p + ".tmp", "w") as f:
         json.dump(ev, f, indent=1)
     os.replace(p + ".tmp", p)
+    if tier != "quick":
+        # keep the deeper run's record next to the per-change one (evidence/<id>.json is rewritten by every run)
+        os.makedirs(os.path.join(vf.VERIF, "evidence", tier), exist_ok=True)
+        shutil.copyfile(p, os.path.join(vf.VERIF, "evidence", tier, pid + ".json"))
 
 
 def do_replay(pid, path):
